@@ -135,6 +135,22 @@ pub fn generate(tier: Tier, rng: &mut Rng) -> Vec<Case> {
     // keys at the edges of their ranges: negative ints, uints beyond i64, the i64 extremes, empty and
     // non-ASCII strings (the int/uint twin lookup must not disturb keys that have no twin)
     map_cases(&mut out, tier, &EXTREME, &EXTREME_QUERIES, 2);
+    // membership across numeric kinds: `x in l`, `l.contains(x)` and `l.exists(e, e == x)` agree, and
+    // equal numbers of different kinds are the same element
+    for (l, present) in [("[1u]", true), ("[1.0]", true), ("[2u, 3.0]", false), ("[1, 2]", true), ("[0u, 1u]", true), ("[-1.0, 1.5]", false), ("[[1u]]", false), ("[]", false)] {
+        for x in ["1", "1u", "1.0"] {
+            push(&mut out, &default, format!("[{x} in {l}, {l}.contains({x}), {l}.exists(e, e == {x})]"), Some(format!("(ok (list {0} {0} {0}))", b(present))), vec!["list", "cross-numeric-membership"]);
+        }
+    }
+    for (m, present) in [("{1u: 0}", true), ("{1: 0}", true), ("{2: 0}", false), ("{true: 1}", false)] {
+        for x in ["1", "1u"] {
+            push(&mut out, &default, format!("[{x} in {m}, {m}.contains({x}), {m}[{x}] != null]"), Some(format!("(ok (list {0} {0} {0}))", b(present))), vec!["map", "cross-numeric-membership"]);
+        }
+    }
+    // bool keys through every route
+    for (m, k, present) in [("{true: 1}", "true", true), ("{true: 1}", "false", false), ("{false: 1, true: 2}", "false", true), ("{}", "true", false)] {
+        push(&mut out, &default, format!("[{k} in {m}, {m}.contains({k}), {m}[{k}] != null]"), Some(format!("(ok (list {0} {0} {0}))", b(present))), vec!["map", "bool-key"]);
+    }
     // field names that are also names of registered functions: `has`, `in`, `contains` and
     // indexing must agree there too (selection falls back to a function value, `has` must not)
     for fname in ["size", "min", "max", "contains", "string", "int", "matches", "startsWith", "duration", "getHours"] {
